@@ -352,6 +352,63 @@ func c12Resources(p *P, r *R) {
 	} else {
 		r.fail("R12.2", "anchor handleShareMemoryByMemFd", "", "not found")
 	}
+	// (f) ownership transfer: a manager obtained during establishment is stored into the session (whose owner,
+	// newSession, cleans it on failure) or released before any error exit of the function that obtained it
+	type acq struct {
+		callees []string
+		field   string
+		release M
+	}
+	unmapM := p.mCall("(*queueManager).unmap")
+	for _, a := range []acq{
+		{[]string{"mappingQueueManager", "mappingQueueManagerMemfd", "createQueueManager", "createQueueManagerWithMemFd"}, "Session.queueManager", unmapM},
+		{[]string{"getGlobalBufferManager", "getGlobalBufferManagerWithMemFd"}, "Session.bufferManager", decRef},
+	} {
+		nA := 0
+		for _, f := range p.fnList {
+			for _, ai := range findInstrs(f, p.mCall(a.callees...)) {
+				ac := ai.(*ssa.Call)
+				var x, errv ssa.Value
+				for _, ref := range *ac.Referrers() {
+					if e, ok := ref.(*ssa.Extract); ok {
+						if e.Index == 0 {
+							x = e
+						} else {
+							errv = e
+						}
+					}
+				}
+				if x == nil {
+					continue
+				}
+				nA++
+				field := a.field
+				rel := a.release
+				stored := func(in ssa.Instruction) bool {
+					st, ok := in.(*ssa.Store)
+					if !ok || wordOf(st.Addr) != field {
+						return false
+					}
+					// the value may have gone through a local variable (phi)
+					return derivedFrom(st.Val, func(v ssa.Value) bool { return v == x }, 3)
+				}
+				okp, res := p.findBadPath(f, []Point{pointOf(ac)}, pathOpts{
+					Discharge: func(in ssa.Instruction) bool { return stored(in) || rel.F(in) },
+					Bad: func(in ssa.Instruction) bool {
+						ret, isRet := in.(*ssa.Return)
+						if !isRet || (f.Recover != nil && ret.Block() == f.Recover) {
+							return false
+						}
+						return isErrorExit(ret)
+					},
+					EdgeOK: func(b *ssa.BasicBlock, i int) bool { return errv == nil || !edgeKnownNonNil(b, i, errv) },
+				})
+				r.ob("R12.2", p.fname(f)+": a manager obtained from "+p.calleeName(&ac.Call)+" is handed to the session (or released) before any error exit", p.ipos(ac), okp, true,
+					"newSession's cleanup releases what the session holds: a mapping that is neither stored nor released on a failing exit stays behind: %s", p.pathString(res))
+			}
+		}
+		r.count("R12.2", "acquisitions stored into "+a.field, nA, 2)
+	}
 	// createQueueManager: the file is closed on every exit (defer)
 	if cq := p.fn("createQueueManager"); cq != nil {
 		ok := false
